@@ -21,6 +21,12 @@ def build_fh(steps, kind, is_relative=True):
     from sktime.forecasting.base import ForecastingHorizon
 
     steps = list(steps)
+    if kind.endswith("_shuffled"):
+        # the same steps in a non-increasing order (a horizon is a set of steps)
+        steps = steps[1:][::-1] + steps[:1] if len(steps) > 2 else steps[::-1]
+        kind = kind[: -len("_shuffled")]
+    if kind == "fh_index":
+        return ForecastingHorizon(pd.Index(np.array(steps, dtype="int64")), is_relative=is_relative)
     if kind == "int" and len(steps) == 1:
         return int(steps[0])
     if kind == "list" or kind == "int":
